@@ -153,6 +153,12 @@ def templates():
     t("lt", ("<", H(0, "x", "p"), H(1, "x", "p")))
     t("lt3", ("<", H(0, "x", "p"), H(1, "x", "p"), "x9"))
     t("eq", ("=", H(0, "x", "p"), H(1, "x", "p")))
+    t("eq1", ("=", H(0, "x", "p")))
+    t("lt1", ("<", H(0, "x", "p")))
+    # the assignment target is read inside the value form: it must still hold its old value there
+    t("setv-or-selfref", ("do", ("setv", "a", "v9"), ("setv", "a", ("or", H(0), ("do", ("setv", "q9", 1), ("F", "a")))), "a"))
+    t("setv-if-selfref", ("do", ("setv", "a", "v9"), ("setv", "a", ("if", H(0), ("do", ("setv", "q9", 1), ("F", "a")), ("F", "a", 2))), "a"))
+    t("setv-try-selfref", ("do", ("setv", "a", "v9"), ("setv", "a", ("try", H(0), ("F", "a"), ("except", ("[", "E1"), ("F", "a", 3)))), "a"))
     t("in", ("in", H(0, "x", "p"), H(1, "xs", "p")))
     t("augadd", ("do", ("setv", "a", 1), ("+=", "a", H(0, "x"))))
     t("get", ("get", H(0, "xs", "p"), H(1, "x", "p")))
@@ -164,6 +170,13 @@ def templates():
     t("while-else", ("do", ("setv", "n", 0),
                      ("while", ("<", "n", 2), ("setv", "n", ("+", "n", 1)), H(0, "v", None, True), ("else", H(1)))))
     t("while-cond-else", ("while", H(0), ("break",), ("else", H(1))))
+    # the condition's value is a mutable object that the body empties: the condition
+    # (with its statements) must still be re-evaluated for the final failing test
+    t("while-mutable", ("do", ("setv", "wl", ("[", 1, 2)),
+                        ("while", ("do", ("setv", "wq", ("E", 90, "wl")), "wq"), H(0, "v", None, True), (".pop", "wl")),
+                        "wl"))
+    t("while-mutable-plain", ("do", ("setv", "wl", ("[", 1, 2)),
+                              ("while", ("E", 90, "wl"), H(0, "v", None, True), (".pop", "wl")), "wl"))
     # iteration variables have names no other template binds (an inner form that
     # re-binds a comprehension's own iteration variable is not a documented case)
     t("for", ("for", ("[", "fa", H(0, "xs"))), )
